@@ -240,6 +240,8 @@ async def exec_op(env, rig, text, version, fmts):
             return "assert"
         except E.KafkaError as ex:
             return f"raised:{_tp_of_error(env, ex)}:{cc.exc_code(ex)}"
+        except Exception as ex:  # noqa: BLE001 - an internal error of the code under test is an observation
+            return f"internal:{type(ex).__name__}"
     if text[0] == "M":
         mx, f = text[1:].split(":")
         flt = [] if f == "*" else [rig.tps[int(x)] for x in f.split(".")]
@@ -251,6 +253,8 @@ async def exec_op(env, rig, text, version, fmts):
             return "assert"
         except E.KafkaError as ex:
             return f"raised:{_tp_of_error(env, ex)}:{cc.exc_code(ex)}"
+        except Exception as ex:  # noqa: BLE001
+            return f"internal:{type(ex).__name__}"
     if text[0] == "Q":
         p = rig.state(int(text[1:]))._position
         return "pos:" + ("-" if p is None else str(p))
